@@ -34,6 +34,8 @@ def mkvals(vs):
                 return np.isfinite(w) and Fraction(*w.as_integer_ratio()) == v
             dt = next((d for d in cands if all(exact_in(d, v) for v in vs)), None)
         if dt is not None:
+            if len(out) > 1 and (len(vs) + sum(int(v * 8) % 7 for v in vs)) % 2:
+                return [dt(o) for o in out]       # a python list of NumPy scalars
             return dt(out[0]) if len(out) == 1 else np.array(out, dtype=dt)
     return out[0] if len(out) == 1 else out
 
